@@ -149,7 +149,13 @@ func (srv *Srv) flush(req *SrvReq) {
 	conn.Lock()
 	r := conn.reqs[tag]
 	if r != nil {
-		req.flushreq = r.flushreq
+		/* flushes of this flush that were handled first already hang off
+		 * req.flushreq: keep them right behind it in r's chain */
+		last := req
+		for last.flushreq != nil {
+			last = last.flushreq
+		}
+		last.flushreq = r.flushreq
 		r.flushreq = req
 	}
 	conn.Unlock()
